@@ -22,7 +22,7 @@ const vc15KnownASNOverwrite = "geoip-subnet-lookup-overwrites-cached-asn"
 func TestVerifC15RealGeoIP(tt *testing.T) {
 	st := vstat.New("C15", "dnssvc.log-realgeoip",
 		"rapid: real geoip.File on the test MMDBs + ECS cache in the full stack; histories of 2-6 requests mixing anonymous and profile clients from the same address / block / other blocks (some naming a known block in ECS), then optionally a concurrent batch from one block; reference country/ASN from fresh database instances; non-trivial = a logged or billed request of a block that an earlier request already took through the cache, whose ASN differs from its country's top ASN; distinct by (client, earlier requests of the block)",
-		"logged-after-cache-lookup-same-block", "billed-after-cache-lookup-same-block", "asn-differs-from-country-top-asn-after-lookup", "concurrent-same-block")
+		"logged-after-cache-lookup-same-block", "billed-after-cache-lookup-same-block", "asn-differs-from-country-top-asn-after-lookup", "concurrent-same-block", "logged-name-of-mixed-case-question")
 	st.Finish(tt)
 
 	w := vfsRealWorldNew(tt)
@@ -71,6 +71,14 @@ func TestVerifC15RealGeoIP(tt *testing.T) {
 			for _, e := range tr.QLog {
 				if e.ClientCountry != want.Country || e.ClientASN != want.ASN {
 					bad("log entry", e.ClientCountry, e.ClientASN)
+				}
+
+				if e.DomainFQDN != r.Name {
+					t.Fatalf("log entry names %q, the question as sent is %q\nhistory:\n  %s", e.DomainFQDN, r.Name, strings.Join(hist, "\n  "))
+				}
+
+				if r.Name != strings.ToLower(r.Name) {
+					classes = append(classes, "logged-name-of-mixed-case-question")
 				}
 
 				if pc := conf.Profiles[r.Prof]; pc.IPLog != e.RemoteIP.IsValid() || (pc.IPLog && e.RemoteIP != r.Client) {
